@@ -13,6 +13,7 @@ package props
 import (
 	"bytes"
 	"fmt"
+	"math/rand/v2"
 	"strings"
 
 	"seehuhn.de/go/postscript/type1"
@@ -54,6 +55,56 @@ func runC09(r *rt.Runner) {
 			}
 			c.Nontrivial([]byte("shadow|"+sn), func() string { return "font with a glyph named " + sn })
 		})
+	}
+	// fonts of several megabytes: thousands of glyphs, more than a million
+	// charstring commands in all (each format is one case, so they spread over the shards)
+	nHuge := r.N(1, 3)
+	for k := 0; k < nHuge; k++ {
+		for _, fm := range allFormats {
+			k, fm := k, fm
+			r.Case("huge-font/"+fm.name, func(c *rt.C) {
+				rng := rand.New(rand.NewPCG(r.Seed, uint64(k)+77))
+				o := &fontOpts{maxGlyphs: 3}
+				f := genFont(rng, o)
+				nGlyphs, nCont, nSeg := 4000+rng.IntN(400), 5, 50+rng.IntN(10)
+				total := 0
+				for i := 0; i < nGlyphs; i++ {
+					g := &type1.Glyph{WidthX: float64(rng.IntN(1000))}
+					for ct := 0; ct < nCont; ct++ {
+						g.MoveTo(float64(rng.IntN(1001)), float64(rng.IntN(1001)))
+						for j := 0; j < nSeg; j++ {
+							if j%7 == 3 {
+								g.CurveTo(float64(rng.IntN(1001)), float64(rng.IntN(1001)), float64(rng.IntN(1001)), float64(rng.IntN(1001)), float64(rng.IntN(1001)), float64(rng.IntN(1001)))
+							} else {
+								g.LineTo(float64(rng.IntN(1001)), float64(rng.IntN(1001)))
+							}
+						}
+						g.ClosePath()
+						total += nSeg + 2
+					}
+					f.Glyphs[fmt.Sprintf("g%04d", i)] = g
+				}
+				c.SetDetail(func() string { return fmt.Sprintf("%d glyphs, %d path commands in all", len(f.Glyphs), total) })
+				var buf bytes.Buffer
+				if err := f.Write(&buf, &type1.WriterOptions{Format: fm.f}); err != nil {
+					c.Violation("huge|write-error|"+fm.name, fmt.Sprintf("Write(%s) failed on a font of %d glyphs / %d path commands: %v", fm.name, len(f.Glyphs), total, err), "")
+					return
+				}
+				g, err := type1.Read(bytes.NewReader(buf.Bytes()))
+				if err != nil {
+					c.Violation("huge|read-error|"+fm.name, fmt.Sprintf("Read(Write(F, %s)) failed on a font of %d glyphs / %d path commands (%d bytes): %v", fm.name, len(f.Glyphs), total, buf.Len(), err), "")
+					return
+				}
+				if d := compareFonts(f, g, fontTol{coord: 0.005}); len(d) > 0 {
+					c.Violation("huge|roundtrip|"+fm.name+"|"+diffKind(d[0]), fmt.Sprintf("Read(Write(F, %s)) differs from F:\n  %s", fm.name, joinLines(d[:min(5, len(d))])), "")
+				}
+				c.Count("round trips of fonts with more than a million path commands")
+				c.Runner().Max("largest font written and read back (bytes)", int64(buf.Len()))
+				c.Nontrivial([]byte(fmt.Sprintf("huge|%d|%s|%d", k, fm.name, total)), func() string {
+					return fmt.Sprintf("%d glyphs, %d path commands, %d bytes, %s", len(f.Glyphs), total, buf.Len(), fm.name)
+				})
+			})
+		}
 	}
 	n := r.N(16000, 200000)
 	for k := 0; k < n; k++ {
